@@ -194,7 +194,7 @@ func firstLine(s string) string {
 	return s
 }
 
-var faultKinds = []string{"errors", "assert", "exit", "badouts", "missingkey", "wrongtype", "badstagedefs"}
+var faultKinds = []string{"errors", "assert", "exit", "badouts", "nullouts", "missingkey", "wrongtype", "badstagedefs"}
 
 func runC06(c *Ctx) {
 	r := c.Res
@@ -254,10 +254,10 @@ func runC06(c *Ctx) {
 				if k == "badstagedefs" && !strings.HasSuffix(j, ".split") {
 					continue
 				}
-				if (k == "badouts" || k == "missingkey" || k == "wrongtype") && strings.HasSuffix(j, ".split") {
+				if (k == "badouts" || k == "nullouts" || k == "missingkey" || k == "wrongtype") && strings.HasSuffix(j, ".split") {
 					continue
 				}
-				if (k == "badouts" || k == "missingkey" || k == "wrongtype") && p.Deps.NoOuts[nodePathOfJob(j[:strings.LastIndex(j, ".")])] {
+				if (k == "badouts" || k == "nullouts" || k == "missingkey" || k == "wrongtype") && p.Deps.NoOuts[nodePathOfJob(j[:strings.LastIndex(j, ".")])] {
 					// a stage without output parameters has no outputs to be missing, unparseable or
 					// ill-typed (mrp never reads its _outs)
 					continue
